@@ -107,11 +107,13 @@ def announceSrc (addr port md : Nat) (vsn : List Nat) (n : Node) : AliveMsg :=
   | some me => { inc := (n.selfInc + 1) % u32, node := n.cfg.self, addr := me.addr, port := me.port, md, vsn := me.vsn }
   | none => { inc := (n.selfInc + 1) % u32, node := n.cfg.self, addr, port, md, vsn }
 
-/-- an unanswered probe: the prober suspects the target at the incarnation it holds -/
+/-- an unanswered probe: the prober suspects the target at the incarnation it holds (state.go:505-521) -/
 def probeFail (target : String) (env : Env) (n : Node) : Node × List Out :=
-  match lookup n.recs target with
-  | none => (n, [])
-  | some r => suspectNode n { inc := r.inc, node := target, frm := n.cfg.self } env
+  if target == n.cfg.self then (n, [])      -- a node never probes itself (C03_probe_target_ok)
+  else
+    match lookup n.recs target with
+    | none => (n, [])
+    | some r => suspectNode n { inc := r.inc, node := target, frm := n.cfg.self } env
 
 inductive COp where
   | deliver (x : String) (k : Nat) (env : Env)      -- pool entry `k` reaches node `x`
